@@ -38,10 +38,11 @@ static void do_op(const char * who, char op, long arg) {
 static void * b_main(void * a) {
   int i = (int)(long)a;
   char buf[512]; strcpy(buf, intf[i].ops);
+  char who[16]; snprintf(who, sizeof who, "B%d", i);
   in_b = 1;
   for (char * tok = strtok(buf, ";"); tok; tok = strtok(0, ";")) {
     char op; long arg;
-    if (sscanf(tok, " %c %ld", &op, &arg) == 2) do_op("B", op, arg);
+    if (sscanf(tok, " %c %ld", &op, &arg) == 2) do_op(who, op, arg);
   }
   pthread_mutex_lock(&mu); intf[i].done = 1; pthread_cond_broadcast(&cv); pthread_mutex_unlock(&mu);
   return 0;
